@@ -46,6 +46,7 @@ def plan(tier, seed):
                        "cs": seed * 100 + 20 + i, "perturb": True})
     for i in range(1 if tier == "quick" else 6):
         shards.append({"mode": "pycan", "threads": [4, 8, 2][i % 3], "ops": 40 if tier == "quick" else 150, "cs": seed * 100 + 60 + i})
+    shards.append({"mode": "slow", "cs": seed * 100 + 95})
     for i in range(1 if tier == "quick" else 6):
         shards.append({"mode": "fragile", "threads": [4, 8, 6][i % 3], "ops": 40 if tier == "quick" else 150, "cs": seed * 100 + 80 + i})
     return shards
@@ -432,10 +433,27 @@ def _pair_frame_ids(self):
 rigs.PairRig.frame_ids = _pair_frame_ids
 
 
+def run_slow(ctx, desc):
+    """Responses delivered *much* later from another thread: every frame needs 0.25 s (a gateway, a busy device), so an
+    answer arrives half a second after its request, and the application has raised RESPONSE_TIMEOUT accordingly (the
+    documented knob, set on the client object as all the other modes do).  Nothing is judged by the clock: with a
+    20 s allowance a round trip either completes or the knob was not honoured."""
+    rig = rigs.PairRig(od_factory, (3,), mode="threaded", timeout=20.0, seed=desc["cs"], max_delay=0.0)
+    rig.bus.min_delay = 0.25
+    rng = random.Random(repr(("c03slow", desc["cs"])))
+    for dt, v in ((R.UNSIGNED16, 0xBEEF), (R.INTEGER32, -2), (R.REAL32, 1.5), (R.VISIBLE_STRING, "slow but sure"), (R.BOOLEAN, True)):
+        style, key = rng.choice(keys_for(dt))
+        roundtrip(ctx, rig.node, rig.local, dt, style, key, v, "slow", trace=lambda: rig.wire(14))
+    ctx.sample({"mode": "slow", "per_frame_delay_s": 0.25, "response_timeout_s": 20.0})
+    rig.close()
+
+
 def run(ctx, desc):
     rigs.LogCapture()
     if desc["mode"] == "inline":
         run_inline(ctx, desc)
+    elif desc["mode"] == "slow":
+        run_slow(ctx, desc)
     else:
         run_threaded(ctx, desc)
 
